@@ -26,7 +26,7 @@ func (c *Ctx) wireObs(sel func(pkgRel, typ string) bool) []core.Ob {
 
 func init() {
 	Props["C06"] = PropDef{
-		Explanation: "R-WIRESYM wire-signature symmetry; R-DISCARD; R-TLG; R-RAWREAD; R-ERRFLOW (E1-E4, deferred completion); R-POOL; T-VARLEN; T-BITFIELD; R-LENPREFIX; R-COUNT counting wrapper; T-BITSETSIZE; R-NOBUF. Decided: For every net/packet field type the writer's and reader's wire signatures agree on every non-error path; length prefixes are the byte length of what follows; packed words keep their fields disjoint; byte counts include every consuming method of the counting reader; FixedBitSet allocates exactly the bytes its accessors address; errors are not swallowed. Value equality is not decided.",
+		Explanation: "R-WIRESYM wire-signature symmetry; R-DISCARD; R-TLG; R-RAWREAD; R-ERRFLOW (E1-E4, deferred completion); R-POOL; T-VARLEN; T-BITFIELD; R-LENPREFIX; R-COUNT counting wrapper; T-BITSETSIZE; R-NOBUF; R-LEN reflect slice length; R-ERRFLOW E3 for the module's own decoders. Decided: For every net/packet field type the writer's and reader's wire signatures agree on every non-error path; length prefixes are the byte length of what follows; packed words keep their fields disjoint; byte counts include every consuming method of the counting reader; FixedBitSet allocates exactly the bytes its accessors address; errors are not swallowed. Value equality is not decided.",
 		Run: func(c *Ctx) []core.Ob {
 			obs := c.wireObs(func(p, t string) bool { return p == "net/packet" })
 			for _, o := range c.Discard() {
@@ -56,7 +56,7 @@ func init() {
 		},
 	}
 	Props["C12"] = PropDef{
-		Explanation: "R-WIRESYM; R-TLG; T-PALCFG decision partitions, width bounds, recorded width; R-ORDER palette-read fresh palette, resize copies every position; T-BSINV. Decided: Reader and writer agree on [bits byte, palette, data array]; create/WithData/bits choose by the same classes and widths within bounds; ReadFrom never refills a used palette; the resize copies every position unconditionally and records the created width. Array semantics across upgrades are not decided.",
+		Explanation: "R-WIRESYM; R-TLG; T-PALCFG decision partitions, width bounds, recorded width; R-ORDER palette-read fresh palette, resize copies every position; T-BSINV; T-BSFIX derived fields; R-ACCEPT palette size bound admits a full palette; T-BSINV direct width. Decided: Reader and writer agree on [bits byte, palette, data array]; create/WithData/bits choose by the same classes and widths within bounds; ReadFrom never refills a used palette and a size bound computed from the index width lets 1<<bits entries through; the resize copies every position unconditionally and records the created width; Fix refreshes every width-derived field; saved longs are read back with the width they were written with (two known findings). Array semantics across upgrades are not decided.",
 		Run: func(c *Ctx) []core.Ob {
 			// the palette kinds: whatever types of the package implement the interface of the container's palette slot
 			names := map[string]bool{"PaletteContainer": true, "BitStorage": true}
@@ -95,7 +95,7 @@ func init() {
 		},
 	}
 	Props["C13"] = PropDef{
-		Explanation: "R-WIRESYM; R-PANIC guarded-call; R-ORDER SetBlock counter; T-HEIGHTMAP save and network; R-NOALIAS loop decode targets; R-INITORDER; T-BITFIELD; T-BSINV. Decided: Network writer and reader of a chunk list the same wire kinds in order; height maps are length-checked and each is built from its own source; decode targets are not shared across loop iterations; no initialiser reads a registry map before init() fills it. Value preservation and the registry bijection are not decided.",
+		Explanation: "R-WIRESYM; R-PANIC guarded-call; R-ORDER SetBlock counter; T-HEIGHTMAP save and network; R-NOALIAS loop decode targets; R-INITORDER; T-BITFIELD; T-BSINV; R-ACCEPT palette size bound; T-BSINV direct width and width-from-saved-longs. Decided: Network writer and reader of a chunk list the same wire kinds in order; height maps are length-checked and each is built from its own source; decode targets are not shared across loop iterations; no initialiser reads a registry map before init() fills it. Value preservation and the registry bijection are not decided.",
 		Run: func(c *Ctx) []core.Ob {
 			names := map[string]bool{"Chunk": true, "Section": true, "BlockEntity": true, "lightData": true, "ChunkPos": true}
 			obs := c.wireObs(func(p, t string) bool { return p == "level" && names[t] })
@@ -118,7 +118,7 @@ func init() {
 		},
 	}
 	Props["C17"] = PropDef{
-		Explanation: "R-WIRESYM; R-MARSHALER; T-DISPATCH; T-ARGKIND; T-OPTFLAG; T-FIELDCOVER; T-TAGS; T-SIGNED; R-GUARD string indexes and len-k bounds; R-TRUNC. Decided: Chat packet-field adapters are symmetric; the optional target is announced exactly when present; a short form looks at every other field; converted struct variants share keys; array arguments are signed; rendering indexes strings only behind length tests. Equality after a round trip and rendering output are not decided.",
+		Explanation: "R-WIRESYM; R-MARSHALER; T-DISPATCH; T-ARGKIND; T-OPTFLAG; T-FIELDCOVER; T-TAGS; T-SIGNED; R-GUARD string indexes and len-k bounds; R-TRUNC; T-OPTFLAG reader side; R-NOALIAS loop decode targets. Decided: Chat packet-field adapters are symmetric; the optional target is announced exactly when present and left nil by the reader when absent; a short form looks at every other field; converted struct variants share keys; array arguments are signed; a decode target that outlives a loop iteration is not copied out inside the loop; rendering indexes strings only behind length tests. Equality after a round trip and rendering output are not decided.",
 		Run: func(c *Ctx) []core.Ob {
 			obs := c.wireObs(func(p, t string) bool { return p == "chat" })
 			obs = append(obs, filterObs(c.MarshalerContract(), func(o core.Ob) bool { return strings.HasPrefix(o.Key, "chat") })...)
@@ -139,7 +139,7 @@ func init() {
 		},
 	}
 	Props["C19"] = PropDef{
-		Explanation: "R-SCHEMA; R-ORDER (stable sort, dispatch order and its callers, compression switch on both ends, offline UUID origin, drain-before-close); R-POOL; R-LENPREFIX; R-ERRFLOW. Decided: For each gate packet the receiver scans a prefix of what the sender marshals; both ends switch compression at the same frame for every threshold value; dispatch stops at the first error in every caller; queued packets survive Close; packet buffers are not recycled under a queued packet; string lengths are byte lengths. One known finding (registry-data layout). Join completion is not decided.",
+		Explanation: "R-SCHEMA; R-ORDER (stable sort, dispatch order and its callers, compression switch on both ends, offline UUID origin, drain-before-close); R-POOL; R-LENPREFIX; R-ERRFLOW; R-ERRAS errors.As target form; R-POOL put-after-retain; sorted insertion (sort.Search) accepted with a strict predicate. Decided: For each gate packet the receiver scans a prefix of what the sender marshals; both ends switch compression at the same frame for every threshold value; handler tables are kept in descending priority with ties in registration order (stable sort or strict sorted insertion); dispatch stops at the first error in every caller; queued packets survive Close; packet buffers are not recycled under a queued or retained packet; errors.As looks for the form in which the module creates the error; string lengths are byte lengths. One known finding (registry-data layout). Join completion is not decided.",
 		Run: func(c *Ctx) []core.Ob {
 			obs := c.Schema()
 			obs = append(obs, c.HandlerSort()...)
